@@ -560,3 +560,212 @@ func c20Schema(c *Ctx) {
 		}
 	}
 }
+
+// ---- C20.unique-rejected and the name used by the duplicate test ------------------------------------
+
+func init() {
+	register(&Rule{Name: "C20.unique-rejected", Min: 1, Run: c20UniqueRejected,
+		Doc: "UNIQUE is rejected either by the parser unconditionally, or by a guard in convertSchema that does not depend on a field still being assigned in the same loop"})
+	register(&Rule{Name: "C20.dup-name", Min: 1, Run: c20DupName,
+		Doc: "the option name checked for duplicates is the very value the option switch dispatches on"})
+	byProp["C20"] = append(byProp["C20"], "C20.unique-rejected", "C20.dup-name")
+	explain["C20"] += " unique-rejected: the parser's UNIQUE action records an error unconditionally; if that is ever removed, the guard in convertSchema must be sound on its own (today it compares with KeyCol, which is assigned later in the same loop, so it would let UNIQUE through on the first column). dup-name: nothing rewrites the option name between the duplicate test and the dispatch (e.g. trimming white space after the seen-set lookup)."
+}
+
+func c20UniqueRejected(c *Ctx) {
+	const rule = "C20.unique-rejected"
+	uniqueF := an.LookupField(c.P, "sql/types", "SchemaColumn", "Unique")
+	if uniqueF == nil {
+		// find the field by name in sql/types
+		if pk := c.P.Pkg("sql/types"); pk != nil {
+			for _, n := range pk.Types.Scope().Names() {
+				if tn, ok := pk.Types.Scope().Lookup(n).(*types.TypeName); ok {
+					if st, ok := tn.Type().Underlying().(*types.Struct); ok {
+						for i := 0; i < st.NumFields(); i++ {
+							if st.Field(i).Name() == "Unique" {
+								uniqueF = st.Field(i)
+							}
+						}
+					}
+				}
+			}
+		}
+	}
+	if uniqueF == nil {
+		c.R.Errorf("anchor field Unique of the schema column type not found")
+		return
+	}
+	// (A) the parser action that sets Unique also records an error, unconditionally
+	parserRejects, setters := true, 0
+	for _, fn := range c.P.RepoFuncs(func(rel string) bool { return rel == "sql" }) {
+		for _, st := range an.StoresToField(fn, uniqueF) {
+			if cb, isC := constBool(st.Val); !isC || !cb {
+				continue
+			}
+			setters++
+			c.R.SawFunc(core.FuncName(fn))
+			// an append of an error whose result is stored, in a block every return passes
+			rec := false
+			for _, call := range an.Calls(fn) {
+				bi, ok := call.Common().Value.(*ssa.Builtin)
+				if !ok || bi.Name() != "append" {
+					continue
+				}
+				if sl, ok := call.Common().Args[0].Type().Underlying().(*types.Slice); !ok || !an.IsErrorType(sl.Elem()) {
+					continue
+				}
+				if !an.ReturnsReachableAvoiding(fn.Blocks[0], map[*ssa.BasicBlock]bool{call.Block(): true}) {
+					rec = true
+				}
+			}
+			if !rec {
+				parserRejects = false
+			}
+		}
+	}
+	if setters == 0 {
+		parserRejects = false
+	}
+	// (B) the guard in convertSchema is sound on its own
+	fn := mustFunc(c, "", "", "convertSchema")
+	if fn == nil {
+		return
+	}
+	guardSound := false
+	for _, b := range fn.Blocks {
+		if _, ok := b.Instrs[len(b.Instrs)-1].(*ssa.If); !ok {
+			continue
+		}
+		errSide := -1
+		for si := 0; si < 2; si++ {
+			if returnsNonNilError(b.Succs[si]) && len(b.Succs[si].Preds) == 1 {
+				errSide = si
+			}
+		}
+		if errSide < 0 {
+			continue
+		}
+		var conds []ssa.Value
+		for gb := b; gb != nil; {
+			if gi, ok := gb.Instrs[len(gb.Instrs)-1].(*ssa.If); ok {
+				conds = append(conds, gi.Cond)
+			}
+			if len(gb.Preds) == 1 && (gb.Comment == "cond.true" || gb.Comment == "cond.false") {
+				gb = gb.Preds[0]
+			} else {
+				gb = nil
+			}
+		}
+		readsUnique := false
+		var tableFields []*types.Var
+		for _, cv := range conds {
+			an.DependsOn(cv, func(v ssa.Value) bool {
+				if fv := an.FieldOfLoad(v); fv != nil {
+					if fv == uniqueF {
+						readsUnique = true
+					}
+					if ld, ok := v.(*ssa.UnOp); ok {
+						if fa, ok := ld.X.(*ssa.FieldAddr); ok {
+							if nt := an.NamedOf(fa.X.Type()); nt != nil && nt.Obj().Name() == "VirtualTable" {
+								tableFields = append(tableFields, fv)
+							}
+						}
+					}
+				}
+				return false
+			})
+		}
+		if !readsUnique {
+			continue
+		}
+		guardSound = true
+		H := loopHeaderOf(b)
+		for _, tf := range tableFields {
+			for _, st := range an.StoresToField(fn, tf) {
+				if H != nil && H.Dominates(st.Block()) && an.ReachableFromBlock(st.Block(), H, nil) {
+					guardSound = false // assigned inside the loop the guard runs in: stale in earlier iterations
+				}
+			}
+		}
+	}
+	c.R.Cond(parserRejects || guardSound, rule, "UNIQUE columns are rejected", c.P.Pos(fn.Pos()),
+		fmt.Sprintf("parser records an error for every UNIQUE: %v; convertSchema guard sound on its own: %v", parserRejects, guardSound),
+		"the parser no longer rejects UNIQUE, and the guard in convertSchema compares the column position with a table field that is only assigned later in the same loop (KeyCol is still 0 for columns before the key, and for tables without a key): UNIQUE on the first column is accepted and never enforced")
+}
+
+func c20DupName(c *Ctx) {
+	const rule = "C20.dup-name"
+	fn := mustFunc(c, "", "", "New")
+	if fn == nil {
+		return
+	}
+	// the seen-set lookup
+	var lk *ssa.Lookup
+	for _, b := range fn.Blocks {
+		for _, in := range b.Instrs {
+			if l, ok := in.(*ssa.Lookup); ok && l.CommaOk {
+				if m, ok := l.X.Type().Underlying().(*types.Map); ok {
+					if _, isStruct := m.Elem().Underlying().(*types.Struct); isStruct {
+						lk = l
+					}
+				}
+			}
+		}
+	}
+	if lk == nil {
+		c.R.Unk(rule, "s3db.New: duplicate test", c.P.Pos(fn.Pos()), "no seen-set lookup found")
+		return
+	}
+	nameKey := an.ExprKey(lk.Index)
+	// the dispatch: comparisons of a string with constant option names
+	same, other := 0, 0
+	for _, b := range fn.Blocks {
+		iff, ok := b.Instrs[len(b.Instrs)-1].(*ssa.If)
+		if !ok {
+			continue
+		}
+		bo, ok := iff.Cond.(*ssa.BinOp)
+		if !ok || bo.Op != token.EQL {
+			continue
+		}
+		k, ok := bo.Y.(*ssa.Const)
+		if !ok || k.Value == nil || k.Value.Kind() != constant.String {
+			continue
+		}
+		if !lk.Block().Dominates(b) {
+			continue
+		}
+		if an.ExprKey(bo.X) == nameKey {
+			same++
+		} else {
+			other++
+		}
+	}
+	// nothing writes the name between the lookup and the dispatch
+	rewritten := false
+	if ld, ok := lk.Index.(*ssa.UnOp); ok {
+		addrKey := an.ExprKey(ld.X)
+		var base ssa.Value
+		if ia, ok := ld.X.(*ssa.IndexAddr); ok {
+			base = ia.X
+		}
+		for _, b := range fn.Blocks {
+			for _, in := range b.Instrs {
+				st, ok := in.(*ssa.Store)
+				if !ok {
+					continue
+				}
+				hit := an.ExprKey(st.Addr) == addrKey
+				if ia, ok := st.Addr.(*ssa.IndexAddr); ok && base != nil && ia.X == base {
+					hit = true // any element of the split result, whatever the index
+				}
+				if hit && !an.InstrBefore(st, lk) {
+					rewritten = true
+				}
+			}
+		}
+	}
+	c.R.Cond(same >= 3 && other == 0 && !rewritten, rule, "s3db.New: duplicate test and dispatch use the same name", c.P.Pos(lk.Pos()),
+		fmt.Sprintf("%d dispatch comparisons on the value that was looked up in the seen set", same),
+		"the option switch dispatches on a different (or rewritten) value than the one checked for duplicates: two spellings of one option (e.g. with white space before '=') both pass the duplicate test and the later one silently wins")
+}
